@@ -29,6 +29,6 @@ ThDump == LET j == ToJson([k |-> "throttle", now |-> now, cache |-> cache, succ 
           IN Len(j) > 0 /\ App(j, IOEnv.UPD_DUMP)
 \* never when disabled; only if newer (by construction of Invoke, stated as invariants of the successor table)
 ThLaws == \A e \in ThSucc : /\ (e.dis => (~e.r.printed /\ e.r.cache = cache))
-                            /\ (e.r.printed => ((cache.latest = "newer" \/ e.net = "newer") /\ e.r.cache.notified = now + e.dt))
+                            /\ (e.r.printed => ((NewerTag(cache.latest) \/ NewerTag(e.net)) /\ e.r.cache.notified = now + e.dt))
 
 =============================================================================
